@@ -248,7 +248,8 @@ func Execute(c *Case) *Run {
 						}
 						seen[o.Addr] = o.Status
 					}
-					time.Sleep(200 * time.Microsecond)
+					// throttle: the store has one pooled connection, an unthrottled reader starves the engine
+					time.Sleep(3 * time.Millisecond)
 				}
 			}(i)
 		}
